@@ -257,7 +257,8 @@ fn strat() -> impl Strategy<Value = CliCase> {
         prop::option::weighted(0.3, prop_oneof![Just(1u8), Just(9u8), Just(17u8), Just(19u8), 1u8..20]),
         prop::collection::vec(any::<u8>(), 1..6),
         any::<u8>(),
-        any::<u8>(),
+        // half of the prefixes are the first character only (every generated name starts with 's': all samples match)
+        prop_oneof![1 => Just(0u8), 1 => any::<u8>()],
     )
         .prop_map(|(collection, batch, adaptive, concatenated, verbosity, compression, request, prefix_of, prefix_len)| CliCase { collection, batch, adaptive, concatenated, verbosity, compression, request, prefix_of, prefix_len })
 }
